@@ -193,6 +193,9 @@ def corr_stop(ctx, bad, use_dask):
             bad.append({"op": tag, "input": {k: sc[k] for k in ("w", "m", "v", "x", "um", "uv", "uw")}, "impl": repr(full), "what": err})
             continue
         crit, _ = run_fit(sc, xin, cap, thr)
+        f0 = criterion_value_check(sc, sc["x"], xin, full)
+        if f0:
+            bad.append({"op": tag, "input": {**{k: sc[k] for k in ("w", "m", "v", "x", "um", "uv", "uw")}, "cap": cap, "thr": thr}, "what": f0["what"]})
         lines.append({"op": "em_stop", "thr": None if thr is None else core.bits(thr), "fuel": cap, "crit": core.enc(np.array(full))})
         meta.append((sc, cap, thr, full, crit))
     outs = core.drive(lines)
@@ -292,6 +295,24 @@ def oracle_monotone(sc, steps=4):
     return None
 
 
+def criterion_value_check(sc, x, xin, full):
+    """the quantity the stopping rule is applied to is the average log-likelihood of *all* samples under the parameters
+    entering the iteration (first two iterations, evaluated independently of the training code)"""
+    if not full:
+        return None
+    x = np.asarray(x, dtype=float)
+    exp0 = avg_ll({k: np.asarray(sc[k], dtype=float) for k in ("w", "m", "v")}, x)
+    if not core.close(full[0], exp0, 1e-9, 1e-12):
+        return {"sig": "criterion-is-not-average-log-likelihood", "what": f"criterion reported by iteration 1: {full[0]}; average log-likelihood of the {len(x)} samples under the initial parameters: {exp0}"}
+    if len(full) >= 2:
+        _, p1 = run_fit(sc, xin, 1, None)
+        if p1 is not None:
+            exp1 = avg_ll(p1, x)
+            if np.isfinite(exp1) and not core.close(full[1], exp1, 1e-8, 1e-11):
+                return {"sig": "criterion-is-not-average-log-likelihood", "what": f"criterion reported by iteration 2: {full[1]}; average log-likelihood under the parameters after one iteration: {exp1}"}
+    return None
+
+
 def oracle_stop(sc, cap, thr, use_dask=False, sizes=None):
     import dask.array as da
 
@@ -302,6 +323,9 @@ def oracle_stop(sc, cap, thr, use_dask=False, sizes=None):
         return {"sig": "fit-does-not-terminate" if full.kind == "DoesNotTerminate" else "fit-raises", "what": f"max_fitting_steps={cap}, no threshold: {full!r}"}
     if len(full) != cap:
         return {"sig": "no-threshold-run-wrong-length", "what": f"max_fitting_steps={cap}, threshold None: {len(full)} iterations"}
+    f0 = criterion_value_check(sc, x, xin, full)
+    if f0:
+        return f0
     crit, _ = run_fit(sc, xin, cap, thr)
     if isinstance(crit, core.ImplError):
         return {"sig": "fit-raises", "what": repr(crit)}
